@@ -44,23 +44,26 @@ func (ps Prices) addPrice(target, commodity *commodity.Commodity, price decimal.
 	dict.GetDefault(ps, target, newNormalizedPrices)[commodity] = price
 }
 
-// Normalize creates a normalized price map for the given commodity.
+// Normalize creates a normalized price map for the given commodity. The
+// price graph is traversed breadth first, neighbors in the order of their
+// names: if a commodity can be reached along several chains of prices, the
+// shortest chain is used, and the result does not depend on the iteration
+// order of the maps.
 func (ps Prices) Normalize(t *commodity.Commodity) NormalizedPrices {
 	res := NormalizedPrices{t: one}
-	ps.normalize(t, res)
-	return res
-}
-
-// normalize recursively computes prices by traversing the price graph.
-// res must already contain a price for c.
-func (ps Prices) normalize(c *commodity.Commodity, res NormalizedPrices) {
-	for neighbor, price := range ps[c] {
-		if _, done := res[neighbor]; done {
-			continue
+	queue := []*commodity.Commodity{t}
+	for len(queue) > 0 {
+		c := queue[0]
+		queue = queue[1:]
+		for _, neighbor := range dict.SortedKeys(ps[c], commodity.Compare) {
+			if _, done := res[neighbor]; done {
+				continue
+			}
+			res[neighbor] = Multiply(ps[c][neighbor], res[c])
+			queue = append(queue, neighbor)
 		}
-		res[neighbor] = Multiply(price, res[c])
-		ps.normalize(neighbor, res)
 	}
+	return res
 }
 
 // NormalizedPrices is a map representing the price of
